@@ -489,8 +489,8 @@ pub fn run(mon: &mut Monitor) {
     canaries(mon);
     suite(mon, &mat_api!(Mat2, f32, 2, 4, Vec2, mul_mat2, mul_vec2, add_mat2, sub_mat2, []));
     suite(mon, &mat_api!(Mat3, f32, 3, 9, Vec3, mul_mat3, mul_vec3, add_mat3, sub_mat3, [
-        "mul_vec3a" => |a: &[f32], x: &[f32]| Mat3::from_cols_array(&core::array::from_fn(|k| a[k])).mul_vec3a(Vec3A::new(x[0], x[1], x[2])).to_array().to_vec(),
-        "M*Vec3A" => |a: &[f32], x: &[f32]| (Mat3::from_cols_array(&core::array::from_fn(|k| a[k])) * Vec3A::new(x[0], x[1], x[2])).to_array().to_vec()
+        "mul_vec3a" => |a: &[f32], x: &[f32]| Mat3::from_cols_array(&core::array::from_fn(|k| a[k])).mul_vec3a(<Vec3A as crate::gen::FromLanes<f32, 3>>::mk([x[0], x[1], x[2]])).to_array().to_vec(),
+        "M*Vec3A" => |a: &[f32], x: &[f32]| (Mat3::from_cols_array(&core::array::from_fn(|k| a[k])) * <Vec3A as crate::gen::FromLanes<f32, 3>>::mk([x[0], x[1], x[2]])).to_array().to_vec()
     ]));
     suite(mon, &mat_api!(Mat3A, f32, 3, 9, Vec3A, mul_mat3, mul_vec3a, add_mat3, sub_mat3, [
         "mul_vec3" => |a: &[f32], x: &[f32]| Mat3A::from_cols_array(&core::array::from_fn(|k| a[k])).mul_vec3(Vec3::new(x[0], x[1], x[2])).to_array().to_vec(),
